@@ -72,6 +72,19 @@ Definition promises_keptb (s : gstate) (j : nat) (n : nstate) : bool :=
   (commit n <=? length (log n)) &&
   prefixb (firstn (commit n) (log n)) (gcommit s).
 
+(* the node recorded as elected for term t, if any *)
+Fixpoint leader_of (t : nat) (l : list (nat * nat * list entry * list nat)) : option nat :=
+  match l with
+  | [] => None
+  | (t', c, _, _) :: r => if t' =? t then Some c else leader_of t r
+  end.
+Definition term_leader (s : gstate) (t : nat) : option nat := leader_of t (leaders s).
+
+(* the prefix a leader is about to commit is comparable with the committed log *)
+Definition commit_comparable (s : gstate) (c k : nat) : bool :=
+  let p := firstn k (log (nodes s c)) in prefixb p (gcommit s) || prefixb (gcommit s) p.
+
+
 Definition apply_label (s : gstate) (l : label) : option gstate :=
   match l with
   | L_UpdateTerm j t =>
@@ -120,7 +133,10 @@ Definition apply_label (s : gstate) (l : label) : option gstate :=
       end
   | L_BecomeLeader c =>
       let n := nodes s c in
+      (* last conjunct: no leader was elected for this term yet (a theorem under the overlap hypothesis,
+         a check otherwise) *)
       if role_eqb (rl n) Candidate && majority (voters (conf n)) (grantedb s (cur n) c)
+         && match term_leader s (cur n) with None => true | Some _ => false end
       then Some (mkG (upd (nodes s) c (mkN (cur n) (vote n) Leader (log n) (snapi n) (commit n) (conf n)))
                      (camps s) (grants s)
                      ((cur n, c, log n, filter (grantedb s (cur n) c) (voters (conf n))) :: leaders s)
@@ -154,6 +170,7 @@ Definition apply_label (s : gstate) (l : label) : option gstate :=
       if role_eqb (rl n) Leader && (commit n <? k) && (k <=? length (log n))
          && opt_nat_eqb (term_at (log n) k) (Some (cur n))
          && majority (voters (conf n)) (ackedb s (cur n) k)
+         && commit_comparable s c k   (* a theorem under the overlap hypothesis, a check otherwise *)
       then Some (mkG (upd (nodes s) c (mkN (cur n) (vote n) Leader (log n) (snapi n) k (conf n)))
                      (camps s) (grants s) (leaders s) (tlogs s) (acks s)
                      (longer (gcommit s) (firstn k (log n))) (voters (conf n) :: quorums s) (app s))
@@ -308,18 +325,6 @@ Definition overlap_state (s : gstate) : bool := overlapb (dedup_lists (quorums s
 Definition n_configs (s : gstate) : nat := length (dedup_lists (quorums s)).
 
 (* ---------- monitors evaluated by the trace driver (direct checks, no rule of the protocol) ---------- *)
-
-(* the node recorded as elected for term t, if any *)
-Fixpoint leader_of (t : nat) (l : list (nat * nat * list entry * list nat)) : option nat :=
-  match l with
-  | [] => None
-  | (t', c, _, _) :: r => if t' =? t then Some c else leader_of t r
-  end.
-Definition term_leader (s : gstate) (t : nat) : option nat := leader_of t (leaders s).
-
-(* the prefix a leader is about to commit is comparable with the committed log *)
-Definition commit_comparable (s : gstate) (c k : nat) : bool :=
-  let p := firstn k (log (nodes s c)) in prefixb p (gcommit s) || prefixb (gcommit s) p.
 
 (* a MsgApp of term t with previous index/term and entries is a slice of the log of the leader of t *)
 Definition msgapp_ok (s : gstate) (t prev prevt : nat) (ents : list entry) : bool :=
